@@ -25,12 +25,18 @@ def parseOp (n : Nat) (s : String) : Option (String × Op) :=
 def parseOps (n : Nat) (s : String) : Option (List (String × Op)) :=
   if s == "-" then some [] else (s.splitOn ",").mapM (parseOp n)
 
+/-- updater calls (openForUpdating/closeForUpdating/abortUpdating and the fresh-prefix writes) are exercised on the real code and judged by
+the oracle only: the model does not cover them -/
+def hasUpdaterOp (ops : String) : Bool :=
+  (ops.splitOn ";").any fun t => (t.splitOn ",").any fun o => o.startsWith "OU:" || o.startsWith "UA:" || o.startsWith "CU:" || o == "AU"
+
 def handle (line : String) : String :=
   match Driver.words line with
   | [mode, ns, ks, ops, sched] =>
     match ns.toNat?, ks.toNat? with
     | some n, some k =>
       if (mode != "A" && mode != "F") || n < 1 || n > 8 || k < 1 || k > 8 then "bad-op"
+      else if hasUpdaterOp ops then "unmodelled"
       else
         match (ops.splitOn ";").mapM (parseOps n) with
         | some per =>
